@@ -156,6 +156,11 @@ def generate(config="ws", repo=None, quiet=False):
             if not quiet:
                 print("[factgen] config=%s tree=%s bodies=%s (%.1fs)" % (config, th, counts, time.time() - t0), file=sys.stderr)
             _gc(th)
+        else:
+            try:
+                os.utime(os.path.join(WORK, "facts", th))
+            except OSError:
+                pass
         fcntl.flock(lock, fcntl.LOCK_UN)
     return out_dir
 
@@ -165,7 +170,7 @@ def _gc(keep):
     base = os.path.join(WORK, "facts")
     dirs = [d for d in os.listdir(base) if os.path.isdir(os.path.join(base, d)) and d != keep]
     dirs.sort(key=lambda d: os.path.getmtime(os.path.join(base, d)), reverse=True)
-    for d in dirs[8:]:
+    for d in dirs[int(os.environ.get("VERIF_FACTS_KEEP", "8")):]:
         shutil.rmtree(os.path.join(base, d), ignore_errors=True)
 
 
